@@ -655,6 +655,11 @@ class ttensor:
         -------
         Computed eigenvectors.
         """
+        if not (0 <= n < self.ndims) or not (1 <= r <= self.shape[n]):
+            assert False, (
+                "Mode n must be a mode of the tensor and r between 1 and the "
+                "size of that mode"
+            )
         # Compute inner product of all n-1 factors
         V = []
         for factor_idx, factor in enumerate(self.factor_matrices):
